@@ -27,7 +27,8 @@ ASSUMPTIONS = ["a zero inside a schedule that starts negative is not generated (
                "sweeping observation.readout.times is not driven (no listed property covers it; the sequential path ignores it)"]
 REQUIRED_COUNTERS = ["valid_runs", "steps_checked", "clock_fields_checked", "lifecycle_checks",
                      "invalid_cases", "invalid_rejected", "prior_contents_runs", "nondestructive_carry_checks",
-                     "concurrent_runs", "concurrent_cases_interleaved", "prior_same_schedule_other_mode"]
+                     "concurrent_runs", "concurrent_cases_interleaved", "prior_same_schedule_other_mode",
+                     "runs_with_first_time_below_1e-8", "steps_ending_with_sources_in_scene"]
 TIMEOUT = {"quick": 600, "thorough": 3000}
 LEVEL_TEXT = ("Exploration by runtime monitoring: generated valid schedules in every accepted form are executed by the "
               "real exposure loop with probes first and last in each step; every observed clock field and bucket "
@@ -48,7 +49,7 @@ def plan(tier, seed):
 # ------------------------------------------------------------------ generators
 def gen_times(rng):
     n = rng.choice([1, 1, 2, 3, 4, 5, 6, 8])
-    style = rng.choice(["int", "float", "close", "large", "negative_start"])
+    style = rng.choice(["int", "float", "close", "large", "negative_start", "tiny"])
     if style == "int":
         ts = sorted(rng.sample(range(1, 60), n))
         start = rng.choice([0.0, 0.0, 0.5, -3.0])
@@ -62,6 +63,13 @@ def gen_times(rng):
         ts = [base + i * 1e-9 * rng.randint(1, 5) * (i + 1) for i in range(n)]
         ts = sorted(set(ts))
         start = 0.0
+    elif style == "tiny":
+        # nanosecond sampling: a first readout time far below any absolute tolerance, but not zero
+        unit = rng.choice([1e-9, 1e-10, 1e-12, 1e-15])
+        ts = sorted({unit * k for k in rng.sample(range(1, 500), n)})
+        if rng.random() < 0.4 and n > 1:
+            ts = [ts[0]] + sorted({float(k) for k in rng.sample(range(1, 40), n - 1)})
+        start = rng.choice([0.0, 0.0, -1.0, -ts[0]])
     elif style == "large":
         ts = sorted({float(rng.randint(1, 10**9)) for _ in range(n)})
         start = 0.0
@@ -116,7 +124,12 @@ def gen_plan(rng, n_steps):
         if rng.random() < 0.08:  # rare: every read of clustered charge re-JITs pyxel's binning kernel (~0.1 s)
             names.append("clusters")
         if rng.random() < 0.6:
-            names.append(rng.choice(["pixel", "pixel+"]))
+            how = rng.choice(["pixel", "pixel+", "pixel=charge"])
+            if how == "pixel=charge" and ("clusters" in names or "charge" not in names):
+                names = [n for n in names if n != "clusters"]
+                if "charge" not in names:
+                    names.append("charge")
+            names.append(how)
         if rng.random() < 0.25:
             names.append("scene")
         if rng.random() < 0.2:
@@ -136,10 +149,11 @@ def pipeline_spec(plan_, seed, dtypes=None):
     }
 
 
-def close(a, b):
+def close(a, b, floor=1.0):
+    """floor: magnitude of the schedule (1.0 for ordinary schedules, smaller for nanosecond sampling)"""
     if math.isinf(a) or math.isinf(b):
         return a == b
-    return abs(a - b) <= 1e-12 * max(1.0, abs(a), abs(b))
+    return abs(a - b) <= 1e-12 * max(floor, abs(a), abs(b))
 
 
 # ------------------------------------------------------------------ valid schedules
@@ -182,13 +196,16 @@ def verify_events(rec, evs, otimes, start, nd, prior, case, i):
         return False
     prev_t = start
     prev_pixel = None
+    floor = min(1.0, max(abs(x) for x in [*otimes, start]))
+    if otimes[0] <= 1e-8:
+        rec.count("runs_with_first_time_below_1e-8")
     for step in range(n_steps):
         t = otimes[step]
         exp = {"time": t, "time_step": t - prev_t, "absolute_time": start + t, "start_time": start}
         for ev in (firsts[step], lasts[step]):
             for field, want in exp.items():
                 rec.count("clock_fields_checked")
-                if not close(ev[field], want):
+                if not close(ev[field], want, floor):
                     rec.violation(f"C02:clock:{field}", f"step {step}: model saw {field}={ev[field]!r}, oracle {want!r} "
                                   f"(times={otimes}, start={start})", case, i)
             for field, want in (("is_first", step == 0), ("is_last", step == n_steps - 1), ("num_steps", n_steps),
@@ -220,6 +237,8 @@ def verify_events(rec, evs, otimes, start, nd, prior, case, i):
             if prev_pixel is None or not np.array_equal(pix, prev_pixel):
                 rec.violation("C02:lifecycle:pixel:nondestructive-content-lost",
                               f"step {step}: pixel at step start differs from the previous step's final content", case, i)
+        if lasts[step]["buckets"].get("scene_empty") is False:
+            rec.count("steps_ending_with_sources_in_scene")
         prev_pixel = lasts[step]["buckets"]["pixel"]
         prev_t = t
         rec.count("steps_checked")
